@@ -26,7 +26,11 @@ INF = math.inf
 NMAX = 6
 
 RULE = ("per model (defaults of HEM/Merton/VG/CGMY, one CGMY draw per activity branch y<0, y=0, 0<y<1, y=1, 1<y<2, then "
-        "zoo.draw_params draws): break points -inf < 2-3 log-uniform negative points < 0 < 2-3 positive points < inf; every "
+        "zoo.draw_params draws, then the boundary of the declared parameter constraints (edge_stream: CGMY g = 0, m = 0, g = m = 0 "
+        "spread over the five y branches -- quick: 5 models, thorough: all 15; HEM p = 1 & sigma = 0, HEM intensity = 0, Merton mu_j = 0 & "
+        "sigma = 0, Merton intensity = 0; VG sigma = 0 and HEM eta1 = 1 are rejected by the constructors; on an un-tempered CGMY side an "
+        "infinite end point is used only where the power-law tail converges (n < y, elementary reference), otherwise the case is skipped "
+        "and counted)): break points -inf < 2-3 log-uniform negative points < 0 < 2-3 positive points < inf; every "
         "pair a <= b of break points (one side, straddling, touching 0, finite / infinite ends, degenerate) x n = 0..6 x both "
         "API routes (integrate/_x/_xx and integrate_against_xn); reference = sum of mpmath.quad pieces (30 digits, split at 0 "
         "and at the break points, x = +-t^m substituted on pieces touching 0 for VG/CGMY; error estimate <= 1e-15 relative + 1e-25 or the case is skipped). A combination is skipped (counted) "
@@ -126,7 +130,7 @@ def scales_of(fam, P):
         return [P.sigma_j]
     if fam == "vg":
         return [1 / P._lambda_p, 1 / P._lambda_m]
-    return [1 / max(P.m, 1e-3), 1 / max(P.g, 1e-3)]
+    return [1 / r if r > 0 else 1.0 for r in (P.m, P.g)]     # un-tempered side (rate 0): pure power law, any scale will do
 
 
 class Ref:
@@ -145,6 +149,15 @@ class Ref:
             extra |= {float(P.mu_j) + e for e in list(extra)} | {float(P.mu_j)}
         self.extra = sorted(extra)
         self.y = float(P.y) if fam == "cgmy" else (0.0 if fam == "vg" else None)
+        # CGMY with g = 0 / m = 0 (legal: declared `positive`, i.e. >= 0): the density is the pure power law c/|x|^(1+y) there
+        self.rate0 = {"neg": fam == "cgmy" and float(P.g) == 0.0, "pos": fam == "cgmy" and float(P.m) == 0.0}
+
+    def power_tail(self, n, lo, hi):
+        """∫_lo^hi x^n c/|x|^(1+y) dx with an infinite end on an un-tempered side: elementary, finite iff n < y"""
+        if not n < self.y:
+            return None
+        e, c = M(n) - M(self.y), M(self.P.c)
+        return c * M(lo) ** e / (-e) if hi == INF else (-1) ** n * c * M(-hi) ** e / (-e)
 
     def integrable0(self, n):
         if self.fam in ("hem", "merton"):
@@ -159,6 +172,12 @@ class Ref:
         if (lo == 0 or hi == 0) and not self.integrable0(n):
             self.cache[key] = None
             return None
+        if (hi == INF and self.rate0["pos"]) or (lo == -INF and self.rate0["neg"]):
+            if (lo == 0 or hi == 0):
+                self.cache[key] = None      # n > y needed at 0, n < y at infinity
+                return None
+            self.cache[key] = self.power_tail(n, lo, hi)
+            return self.cache[key]
         inner = [e for e in self.extra if lo < e < hi]
         f = self.f
         m = 1
@@ -267,7 +286,9 @@ def model_desc(fam, params):
 
 
 def make_nu(fam, params):
-    model = zoo.make_levy(fam, params)
+    with warnings.catch_warnings(), np.errstate(all="ignore"):      # CGMY's constructor computes 0 ** y for g = 0 / m = 0
+        warnings.simplefilter("ignore")
+        model = zoo.make_levy(fam, params)
     return model, model.levy_triplet.nu
 
 
@@ -289,6 +310,11 @@ class Case:
                  inf_end=bool(math.isinf(a) or math.isinf(b)), quad_route=is_quad_route(self.fam, n, a, b))
         if self.yb:
             d["ybranch"] = self.yb
+            g0, m0 = float(self.P.g) == 0.0, float(self.P.m) == 0.0
+            if g0 or m0:
+                d["untempered"] = "g=m=0" if (g0 and m0) else ("g=0" if g0 else "m=0")
+                # the code's one-sided forms evaluate the rate-0 tail when the interval meets that side (a >= 0 routes to m)
+                d["untempered_side_used"] = bool((g0 and a < 0) or (m0 and (b > 0 or a >= 0)))
         d.update(kw)
         return d
 
@@ -325,8 +351,10 @@ def closed_form_probe(c: Case, route, n, a, b, nu=None, trunc=None):
     cls = c.cls(n, route, aa, bb, **({"truncated": True, "outside": bool(max(a, trunc[0]) > min(b, trunc[1]))} if trunc else {}))
     if ref is None:
         unrel = any(isinstance(k_, tuple) and k_ and k_[0] == "unreliable" and k_[1][0] == n for k_ in c.ref.cache)
+        at_inf = (c.ref.rate0["pos"] and bb == INF) or (c.ref.rate0["neg"] and aa == -INF)
         ctx.count(probe, inp, nontrivial=False, branch="skipped_reference_unreliable" if unrel and c.ref.integrable0(n)
-                  else "skipped_not_integrable_at_0")
+                  else "skipped_not_integrable_at_0" if not (c.ref.integrable0(n) or not aa <= 0 <= bb)
+                  else "skipped_untempered_tail_diverges" if at_inf else "skipped_not_integrable_at_0")
         return
     st, v = call(nu, route, n, a, b) if trunc else c.impl(route, n, a, b)
     quad_route = is_quad_route(c.fam, n, aa, bb)
@@ -595,6 +623,34 @@ def run_model(ctx, fam, params, rng, nside, ntrunc):
     return c
 
 
+def edge_stream(rng, thorough):
+    """models on the boundary of the declared parameter constraints (tools/parameter.py: `positive` means >= 0):
+    CGMY g = 0, m = 0, g = m = 0 (un-tempered power law on that side) on every branch of y; HEM p = 1 (the constraint on p has
+    no upper bound; 1 is the edge of the meaningful range), intensity = 0, sigma = 0; Merton mu_j = 0, intensity = 0, sigma = 0.
+    Rejected by the unchanged constructors, hence not generated: VG sigma = 0, HEM eta1 = 1 (ZeroDivisionError)."""
+    out = []
+    ys = list(zoo.CGMY_Y_BRANCHES)
+    rng.shuffle(ys)
+    which = ["g", "m", "gm"]
+    rng.shuffle(which)
+    combos = [(wh, y) for y in ys for wh in which] if thorough else \
+        [(which[0], ys[0]), (which[1], ys[1]), (which[2], ys[2]), (rng.choice(which), ys[3]), (rng.choice(which), ys[4])]
+    for wh, yb in combos:
+        prm = zoo.draw_params(rng, "cgmy", yb)
+        if "g" in wh:
+            prm["g"] = 0.0
+        if "m" in wh:
+            prm["m"] = 0.0
+        out.append(("cgmy", prm))
+    h = zoo.draw_params(rng, "hem")
+    out.append(("hem", dict(h, p=1.0, sigma=0.0)))
+    out.append(("hem", dict(zoo.draw_params(rng, "hem"), intensity=0.0)))
+    mj = zoo.draw_params(rng, "merton")
+    out.append(("merton", dict(mj, mu_j=0.0, sigma=0.0)))
+    out.append(("merton", dict(zoo.draw_params(rng, "merton"), intensity=0.0)))
+    return out
+
+
 def xn_helper_stream(ctx, rng, count):
     """tools/integral.py: polynomial (exact vs M), sign logic (terms vs M), value (vs quadrature)"""
     for _ in range(count):
@@ -766,6 +822,8 @@ def quad_across_zero_probe(ctx, rng, count):
     for i in range(count):
         fam = "cgmy" if i % 4 else rng.choice(["hem", "merton"])
         params = zoo.draw_params(rng, fam) if i % 7 else {}
+        if fam == "cgmy" and i % 5 == 1:      # boundary of the declared constraints: un-tempered side(s)
+            params = dict(params or zoo.draw_params(rng, fam), **rng.choice([dict(g=0.0), dict(m=0.0), dict(g=0.0, m=0.0)]))
         _, nu = make_nu(fam, params)
         big = float(f"{math.exp(rng.uniform(math.log(0.1), math.log(1.3))):.3g}")
         small = float(f"{math.exp(rng.uniform(math.log(0.003), math.log(0.05))):.3g}")
@@ -793,6 +851,8 @@ def run(ctx):
     nside = ctx.n(2, 3)
     for fam, params in zoo.model_stream(rng, nmodels):
         run_model(ctx, fam, params, rng, nside, ntrunc=ctx.n(2, 3))
+    for fam, params in edge_stream(rng, ctx.thorough):
+        run_model(ctx, fam, params, rng, 2, ntrunc=1)
     xn_helper_stream(ctx, rng, ctx.n(90, 900))
     special_ode_probe(ctx, rng, ctx.n(20, 100))
     special_gamma_probe(ctx, rng, ctx.n(20, 100))
